@@ -6,7 +6,8 @@ Require Import Base Converter Driver CoreOpt Tracker.
 From RecordUpdate Require Import RecordSet.
 Import RecordSetNotations.
 
-Inductive algo_kind := KHill | KStochastic | KAnnealing | KRepulsing | KRestart | KRandAnneal | KRandomSearch.
+Inductive algo_kind := KHill | KStochastic | KAnnealing | KRepulsing | KRestart | KRandAnneal | KRandomSearch
+                    | KSpiral.   (* pop_opt/_spiral.py: a hill climber whose evaluate is new2current + current2best *)
 
 Record algo_cfg := mkAlgoCfg {
   a_sp : space;
@@ -34,7 +35,7 @@ Section Algo.
   Definition iterate_move (st : algo_state) : res (pos * tape * Z) :=
     let t := h_tape st in
     match a_kind c with
-    | KHill | KStochastic | KAnnealing | KRandAnneal =>
+    | KHill | KStochastic | KAnnealing | KRandAnneal | KSpiral =>
         random_iteration sp cons (fst (a_rrp c)) (snd (a_rrp c)) fuel t climb
     | KRepulsing => climb t
     | KRestart =>
@@ -81,6 +82,7 @@ Section Algo.
           Ok (st <| h_trk := (fst kt) <| t_nth_trial ::= Z.succ |> |> <| h_tape := snd kt |>)
         else do k' <- hc_evaluate (a_nn c) k s; Ok (st <| h_trk := k' |>)
     | KRandomSearch => do k' <- base_evaluate_tracked k s; Ok (st <| h_trk := k' |>)
+    | KSpiral => do k' <- spiral_evaluate k s; Ok (st <| h_trk := k' |>)
     end.
 
   Definition algo_evaluate_init (st : algo_state) (s : score) : res algo_state :=
